@@ -428,6 +428,7 @@ func init() {
 			complete := true
 			eval := func(c c13Case, size int) {
 				r.Evals.Add(1)
+				r.Journal(c)
 				r.Transitions.Add(1)
 				ok, sig, detail := c13Eval(c)
 				r.Distinct.Add(mustJSON(c))
